@@ -119,6 +119,9 @@ func lift(v value) *smt.Expr {
 	case uintptr:
 		return smt.Const(64, uint64(v))
 	}
+	if _, ok := v.(litseg); ok {
+		unsupported("byte-wise use of an opaque integer literal")
+	}
 	panic(fmt.Sprintf("lift: %T", v))
 }
 
@@ -338,6 +341,9 @@ func concSigned(v uint64, k types.BasicKind) int64 {
 func normStr(b []value) value {
 	for _, c := range b {
 		if _, ok := c.(uint8); !ok {
+			if sc, ok := c.(sym); ok && sc.k != types.Uint8 {
+				panic(fmt.Sprintf("normStr: element of kind %v", sc.k))
+			}
 			return symstr{b}
 		}
 	}
@@ -390,10 +396,29 @@ func strEq(x, y value) value {
 	}
 	xb, yb := strBytes(x), strBytes(y)
 	if len(xb) != len(yb) {
+		if (hasLit(x) || hasLit(y)) && len(xb) != 0 && len(yb) != 0 {
+			unsupported("comparison of an opaque literal with other text")
+		}
 		return false
 	}
 	acc := smt.True
 	for i := range xb {
+		lx, xl := xb[i].(litseg)
+		ly, yl := yb[i].(litseg)
+		if xl || yl {
+			if xl && yl && lx.style == ly.style {
+				acc = smt.And(acc, smt.Eq(lx.v, ly.v))
+				continue
+			}
+			other := yb[i]
+			if yl {
+				other = xb[i]
+			}
+			if c, ok := other.(uint8); ok && !litChar(c) {
+				return false // a literal starts with a sign or digit: differs from this byte
+			}
+			unsupported("comparison of an opaque literal with other text")
+		}
 		acc = smt.And(acc, smt.Eq(lift(xb[i]), lift(yb[i])))
 		if acc.IsFalse() {
 			return false
@@ -403,6 +428,10 @@ func strEq(x, y value) value {
 }
 
 // strLess returns x < y lexicographically as bool or sym(Bool).
+func litChar(c byte) bool {
+	return c == '+' || c == '-' || c == '_' || (c >= '0' && c <= '9') || (c >= 'a' && c <= 'z') || (c >= 'A' && c <= 'Z')
+}
+
 func strLess(x, y value) value {
 	xb, yb := strBytes(x), strBytes(y)
 	// build from the end
@@ -478,8 +507,10 @@ func describeStr(v value) string {
 		for _, c := range v.b {
 			if cb, ok := c.(uint8); ok {
 				sb.WriteByte(cb)
+			} else if sc, ok := c.(sym); ok {
+				sb.WriteString("{" + sc.e.String() + "}")
 			} else {
-				sb.WriteString("{" + c.(sym).e.String() + "}")
+				sb.WriteString("{literal}")
 			}
 		}
 		return sb.String()
